@@ -1,8 +1,10 @@
 #!/bin/sh
-# usage: muteval.sh <PROP> <mutation dir> <check id> [<check id>...]
+# usage: muteval.sh <mutation dir (seeded/<ID>)> <check id> [<check id>...]
 # Applies the mutation in a scratch worktree of /repo HEAD and runs the given checks with PYTHONPATH pointing at it.
-PROP=$1; MDIR=$2; shift 2
-NAME=$(basename $(dirname $(dirname $MDIR)))_$(basename $MDIR)
+# Prints one RESULT line per check and appends it to <mutation dir>/results.txt when VERIF_MUT_RECORD=1.
+MDIR=$1; shift 1
+NAME=$(basename $MDIR)
+mkdir -p /tmp/mw
 WT=/tmp/mw/$NAME
 rm -rf $WT; git -C /repo worktree prune
 git -C /repo worktree add -q --detach $WT HEAD || exit 3
@@ -11,9 +13,9 @@ if ! git -C $WT apply $MDIR/patch.diff 2>/dev/null; then
 fi
 for C in "$@"; do
   START=$(date +%s)
-  PYTHONPATH=$WT timeout 1500 bin/check $C > /tmp/mw/$NAME.$C.log 2>&1
+  PYTHONPATH=$WT VERIF_OUT=/tmp/mw/out_$NAME timeout 1500 bin/check $C > /tmp/mw/$NAME.$C.log 2>&1
   RC=$?
   END=$(date +%s)
-  echo "RESULT $NAME check=$C rc=$RC secs=$((END-START)) $(grep -c '^VIOLATION' /tmp/mw/$NAME.$C.log) violations; $(grep -A1 '^VIOLATION' /tmp/mw/$NAME.$C.log | sed -n 2p | cut -c1-200)"
+  echo "RESULT $NAME check=$C rc=$RC secs=$((END-START)) $(grep -c '^VIOLATION' /tmp/mw/$NAME.$C.log) violations; $(grep -A1 '^VIOLATION' /tmp/mw/$NAME.$C.log | sed -n 2p | cut -c1-240)"
 done
 git -C /repo worktree remove --force $WT
